@@ -356,6 +356,8 @@ fn round_trip<W, R, SI, I, WE, RE>(
     let (mut widx, mut ridx) = (0u64, 0u64);
     let mut transit_done = transit_ms == 0;
     let mut flushed_all = false;
+    let mut closed_kept = false;
+    let mut kept = None;
     let _g = clock.rt.enter();
     for _ in 0..400_000 {
         // ---- writer
@@ -393,6 +395,13 @@ fn round_trip<W, R, SI, I, WE, RE>(
                                 finished = true;
                             }
                         }
+                        // the sink is closed but the writing end stays alive (half-close): where the medium can signal a
+                        // close, the reader must still see the end of the stream
+                        "closekeep" => {
+                            if let Poll::Ready(_) = w.as_mut().poll_close(&mut cx) {
+                                closed_kept = true;
+                            }
+                        }
                         "keep" => flushed_all = true,
                         _ => finished = true,
                     },
@@ -406,6 +415,9 @@ fn round_trip<W, R, SI, I, WE, RE>(
             if finished {
                 emit("WriterEnd", json!({"how": close_writer, "n": widx}));
                 writer = None; // dropped here
+            } else if closed_kept {
+                emit("WriterEnd", json!({"how": close_writer, "n": widx}));
+                kept = writer.take(); // closed, not dropped
             }
         }
         let writer_idle = writer.is_none() || (queue.is_empty() && close_writer == "keep" && flushed_all);
@@ -436,7 +448,7 @@ fn round_trip<W, R, SI, I, WE, RE>(
                 break;
             }
             Ok(Poll::Pending) => {
-                if writer_idle && close_writer == "keep" && !rflag.is_set() {
+                if writer_idle && (close_writer == "keep" || close_writer == "closekeep") && !rflag.is_set() {
                     emit("ReaderIdle", json!({"n": ridx}));
                     break;
                 }
@@ -448,6 +460,7 @@ fn round_trip<W, R, SI, I, WE, RE>(
             }
         }
     }
+    drop(kept);
 }
 fn scripts(cfg: &Value) -> (Vec<usize>, Vec<usize>) {
     let f = |k: &str| -> Vec<usize> {
@@ -1092,7 +1105,7 @@ pub fn run(a: &Args) -> Value {
                 let sl = |rng: &mut StdRng| -> Vec<u64> { (0..rng.gen_range(0..6)).map(|_| [0u64, 1, 1, 2, 3, 7, 100][rng.gen_range(0..7)]).collect() };
                 let codec2 = ["json", "bincode", "mem-unbounded", "mem-bounded"][rng.gen_range(0..4)];
                 let transit = [0u64, 0, 1, 7, 5000][rng.gen_range(0..5)];
-                let close = ["drop", "close", "keep"][rng.gen_range(0..3)];
+                let close = if codec2 == "mem-unbounded" { ["drop", "close", "keep"][rng.gen_range(0..3)] } else { ["drop", "close", "keep", "closekeep"][rng.gen_range(0..4)] };
                 let (rs, ws) = (sl(&mut rng), sl(&mut rng));
                 let iobuf = rng.gen_range(0..3) == 0;
                 let fs = sl(&mut rng);
